@@ -401,6 +401,16 @@ func (tc *TypeCtx) dynCtor(t types.Type) string {
 	return name
 }
 
+// litOf: the contents of a string literal constant.
+func (tc *TypeCtx) litOf(name string) (string, bool) {
+	for s, n := range tc.strLits {
+		if n == name {
+			return s, true
+		}
+	}
+	return "", false
+}
+
 func (tc *TypeCtx) strLit(s string) string {
 	tc.usesStr = true
 	if n, ok := tc.strLits[s]; ok {
